@@ -300,7 +300,7 @@ func runC20(t *testing.T, seed uint64, planJSON []byte, tier string) (res *Resul
 			if phase > tWarm {
 				sim.Probe("c20-refresher-pass-observed")
 				settle()
-				lead := time.Duration(40+20*int(seed%4)) * time.Millisecond
+				lead := time.Duration(8+8*int(seed%4)) * time.Millisecond
 				target := phase + ((sim.Now()-phase)/time.Minute+1)*time.Minute - lead
 				if d := target - sim.Now(); d > 0 {
 					sim.Sleep(d)
@@ -407,6 +407,9 @@ func runC20(t *testing.T, seed uint64, planJSON []byte, tier string) (res *Resul
 			sim.Note("scheduling points: %d delays at %d active sites", fired, sites)
 			for i := 0; i < fired; i++ {
 				sim.Fault("goroutine-delayed-at-lock")
+			}
+			for i := 0; i < ys.windows(); i++ {
+				sim.Probe("c20-rare-writer-ran-inside-a-window-after-unlock")
 			}
 			if n, met := ys.recursiveReadLocks(); n > 0 {
 				for i := 0; i < n; i++ {
